@@ -1,5 +1,6 @@
 import PycsepVerif.Proto
 import PycsepVerif.Model.Time
+import PycsepVerif.Model.TimeExt
 /-! driver ops of property C15 (time conversions). Lists are comma separated; a space inside a time string
     travels as `_`. -/
 namespace Drive.C15
@@ -15,6 +16,10 @@ def showFields (f : Fields) : String :=
 
 def tz? : String → Option Tz
   | "naive" => some .naive | "utc" => some .utc | "other" => some .other | _ => none
+
+def pairsMap (f : Int → Int → Rat) : List Int → List Rat
+  | a :: b :: rest => f a b :: pairsMap f rest
+  | _ => []
 
 def handle : List String → Option String
   | ["c15_ms2dt", xs] => some (match parseList? parseInt? xs with
@@ -44,5 +49,44 @@ def handle : List String → Option String
       | "epoch" => showOpt showInt (strptimeToUtcEpoch cs)
       | "reader" => showOpt showInt (readerParse cs)
       | _ => "bad-op")
+  -- wave 4 ------------------------------------------------------------------------------------------------
+  -- c15_ms2dt_nt <ms,...> : the os.name == "nt" path; `<us>:a` aware / `<us>:n` naive
+  | ["c15_ms2dt_nt", xs] => some (match parseList? parseInt? xs with
+      | some xs => showList (fun (p : Int × Bool) => showInt p.1 ++ (if p.2 then ":a" else ":n")) (xs.map toDatetimeNt)
+      | none => "bad-op")
+  -- c15_ms2dt_ntp <ms,...> : the proposed repair of that path
+  | ["c15_ms2dt_ntp", xs] => some (match parseList? parseInt? xs with
+      | some xs => showList (fun (p : Int × Bool) => showInt p.1 ++ (if p.2 then ":a" else ":n")) (xs.map toDatetimeNtPatched)
+      | none => "bad-op")
+  | ["c15_m2d", xs] => some (match parseList? parseInt? xs with
+      | some xs => showList showRat (xs.map millisToDays) | none => "bad-op")
+  | ["c15_d2m", xs] => some (match parseList? parseRat? xs with
+      | some xs => showList showRat (xs.map daysToMillisF) | none => "bad-op")
+  | ["c15_d2mi", xs] => some (match parseList? parseInt? xs with
+      | some xs => showList showInt (xs.map daysToMillisI) | none => "bad-op")
+  | ["c15_tdy", xs] => some (match parseList? parseRat? xs with
+      | some xs => showList (showOpt showInt) (xs.map timedeltaFromYears) | none => "bad-op")
+  -- c15_thy <startUs,endUs,startUs,endUs,...> : time_horizon_years of each window
+  | ["c15_thy", xs] => some (match parseList? parseInt? xs with
+      | some xs => showList showRat (pairsMap timeHorizonYears xs)
+      | none => "bad-op")
+  -- c15_len <firstMs,lastMs,...> : length_in_seconds
+  | ["c15_len", xs] => some (match parseList? parseInt? xs with
+      | some xs => showList showRat (pairsMap lengthInSeconds xs)
+      | none => "bad-op")
+  -- c15_parsex <dt|epoch> <sep: T|S|other char> <frac 0/1> <zone 0/1> <string> : explicit format argument
+  | ["c15_parsex", kind, sep, fr, zn, s] => some (
+      let cs := unesc s
+      let sepc : Char := if sep = "S" then ' ' else (sep.toList.headD 'T')
+      let fmt : Format := { sep := sepc, frac := fr = "1", zone := zn = "1" }
+      match kind with
+      | "dt" => showOpt showInt (strptimeExplicitDatetime fmt cs)
+      | "epoch" => showOpt showInt (strptimeExplicitEpoch fmt cs)
+      | _ => "bad-op")
+  | ["c15_createutc", which, tz, x] => some (match tz? tz, parseInt? x with
+      | some tz, some x =>
+          (match (if which = "fixed" then createUtcDatetimeFixed tz x else createUtcDatetime tz x) with
+           | .ok us => showInt us | .assertionError => "AssertionError" | .attributeError => "AttributeError")
+      | _, _ => "bad-op")
   | _ => none
 end Drive.C15
